@@ -99,15 +99,19 @@ def decorate(rng, tok, style):
         return tok[:i] + "(ox)" + tok[i:]
     if style == "mod_flank":
         return "R." + tok[:i] + "[+57.02]" + tok[i:] + ".G"
+    if style == "mod_two":
+        j = int(rng.integers(1, len(tok)))
+        a, b = sorted((i, j)) if i != j else (i, i)
+        return tok[:a] + "[+15.99]" + tok[a:b] + "(ph)" + tok[b:]
     if style == "lower":
         return tok[:i] + "m" + tok[i:]  # lower-case letter marks a modification
     return tok
 
 
-STYLES = ["plain", "flank", "flank_dash", "mod_sq", "mod_par", "mod_flank", "lower"]
+STYLES = ["plain", "flank", "flank_dash", "mod_sq", "mod_par", "mod_flank", "mod_two", "lower"]
 
 
-def psm_table_for_db(rng, db, n_spectra=400, styles=("plain",), unknown_frac=0.0, sep=3.0, file_index=0):
+def psm_table_for_db(rng, db, n_spectra=400, styles=("plain",), unknown_frac=0.0, sep=3.0, file_index=0, ties=False):
     """PSM table (PIN columns) whose peptides come from the database tokens."""
     ttoks = sorted({t for toks in db["targets"].values() for t in toks})
     dtoks = sorted({t for toks in db["decoys"].values() for t in toks})
@@ -134,6 +138,10 @@ def psm_table_for_db(rng, db, n_spectra=400, styles=("plain",), unknown_frac=0.0
         "Peptide": [decorate(rng, r[2], str(rng.choice(list(styles)))) for r in rows],
         "Proteins": ["x" for _ in rows],
     })
+    if ties:
+        # coarse features: learned scores tie often, so that seeded tie-breaking is exercised
+        for c in ("info0", "info1", "noise0"):
+            df[c] = np.round(df[c])
     truth = pd.DataFrame({"SpecId": df["SpecId"], "is_target": [r[1] for r in rows], "token": [r[2] for r in rows],
                           "is_correct": [r[3] for r in rows], "spec": [r[0] for r in rows]})
     perm = rng.permutation(n)
